@@ -25,6 +25,12 @@ CONFIG = {
             "offsets +-32767/-32768, switch/match tables with 255 labels (full, cut short, ending inside the table), huge pushint "
             "values and pushbytes / constant-block count and length prefixes, byte immediates 255 -- for versions 0..LogicVersion+1 "
             "and both modes, through the real Check* AND Eval* entry points (a panicError from either is a violation). "
+            "d (all tiers, deterministic, ~75000 programs): degenerate operands for EVERY opcode of every version (each distinct spec "
+            "at the version that introduced it and at LogicVersion; arg types and immediates from the running table), both modes where "
+            "the op is allowed: byte operands empty / 1 byte / the documented length (declared bound, else 32/64/96/128/192) and +-1 / "
+            "4096 bytes, all-zero and all-0xff; ints 0, 1, 2^32, 2^63, 2^64-1; every value of every field / group immediate (both "
+            "ECDSA curves, all EC groups, base64 / json / vrf / block / mimc / poseidon2 selectors ...); full product of operand values "
+            "when <= 320 combinations, else diagonals + one-at-a-time + all pairs of the first two and last two operands. "
             "f: one evaluation through EvalSignatureFull / EvalContract of a byte string drawn from: structured random programs "
             "(constant blocks, typed argument pushes, any instruction of the version with random immediates, canned shapes driving "
             "byte length / stack depth / recursion to their limits) 55%, mutations of those (byte flips, inserts, truncation) 30%, "
